@@ -234,6 +234,10 @@ def JOBS(tier):
         jobs.append((file_rt, {'kinds': [[a, 'end_of_track', 'note_on']], 'wide': (1,)}, {'cost': 10}))
         jobs.append((file_rt, {'kinds': [[a]], 'ftype': 0, 'wide': (0,), 'hi': 2 ** 35}, {'cost': 10}))
         jobs.append((file_rt, {'kinds': [[a], []], 'ftype': 2}, {'cost': 5}))
+    from .C08 import SANDWICH
+    for a in ('note_on', 'program_change', 'pitchwheel'):
+        for x in SANDWICH:
+            jobs.append((file_rt, {'kinds': [[a, x, a]], 'wide': (1,)}, {'cost': 30}))
     jobs.append((file_rt, {'kinds': [[]]}, {}))
     jobs.append((file_rt, {'kinds': [['end_of_track', 'end_of_track']], 'wide': (0, 1)}, {}))
     jobs.append((file_rt, {'kinds': [['note_on', 'note_on', 'note_on', 'note_on']], 'wide': (0, 3)}, {'cost': 50}))
